@@ -277,6 +277,26 @@ fn programs(tier: Tier) -> (Vec<E>, J) {
         all.push(E::Arr((0..n).map(|_| E::Arr(vec![E::Obj(vec![], false)], true)).collect(), true));
         pumped += 3;
     }
+    // runs of entries of one form: n entries with literal keys and distinct literal values (and
+    // the same with every other key form), with and without a trailing comma; runs of n distinct
+    // literals in an array - a batching rule for "simple" entries sees only homogeneous runs
+    for n in 2..=12usize {
+        for form in 0..3usize {
+            let key = |i: usize| match form {
+                0 => KeyForm::Lit(["a", "b"][i % 2]),
+                1 => KeyForm::Paren(["a", "b"][i % 2]),
+                _ => KeyForm::Expr(["a", "b"][i % 2]),
+            };
+            for trailing in [false, true] {
+                all.push(E::Obj((0..n).map(|i| (key(i), rich[3 + i % 12].clone())).collect(), trailing));
+                pumped += 1;
+            }
+        }
+        all.push(E::Arr((0..n).map(|i| rich[3 + i % 12].clone()).collect(), true));
+        all.push(E::Arr((0..n).map(|i| rich[3 + i % 12].clone()).collect(), false));
+        all.push(E::Arr(vec![E::Obj((0..n).map(|i| (KeyForm::Lit("a"), rich[3 + (i * 5) % 12].clone())).collect(), n % 2 == 0)], false));
+        pumped += 3;
+    }
     for depth in [5usize, 8, 16, 32, 64] {
         let mut v = E::Lit("1");
         for d in 0..depth {
